@@ -1,0 +1,27 @@
+//go:build verif
+
+package linkedhashset
+
+// Read-only accessors for the verification harness (build tag verif).
+
+// VerifTableKeys returns the elements of the hash table (Go map order).
+func (set *Set[E]) VerifTableKeys() []E {
+	keys := make([]E, 0, len(set.table))
+	for k := range set.table {
+		keys = append(keys, k)
+	}
+	return keys
+}
+
+// VerifRevKeys walks the ordering list backwards (last to first).
+func (set *Set[E]) VerifRevKeys() []E {
+	var keys []E
+	it := set.ordering.Iterator()
+	for it.End(); it.Prev(); {
+		keys = append(keys, it.Value())
+	}
+	return keys
+}
+
+func (s *SetSafe[E]) VerifTableKeys() []E { return s.unsafe.VerifTableKeys() }
+func (s *SetSafe[E]) VerifRevKeys() []E   { return s.unsafe.VerifRevKeys() }
